@@ -374,25 +374,33 @@ Section Useful.
     | q :: qs' => do wr <- rec ts P q; join_rows ts P qs' (join_witness_reports acc wr)
     end.
 
+  (* steps 3.1-3.3 for one constructor c_k of Sigma *)
+  Definition ck_report (t : ty) (ts_rest : list ty) (P : list (list pat)) (q_rest : list pat) (qlen : nat) (c_k : pat) : outcome wreport :=
+    do s_p <- compute_specialized_matrix c_k P qlen;
+    do s_q <- compute_specialized_matrix c_k [PWild :: q_rest] qlen;
+    join_rows (arg_tys c_k t ++ ts_rest) s_p s_q NoWit.
+
+  (* steps 3.4-3.5: fold one report into the state (witness_report, pat_stack) *)
+  Definition ck_step (c_k : pat) (st : wreport * list pat) (wr : wreport) : outcome (wreport * list pat) :=
+    match fst st, wr with
+    | _, NoWit => Ok st
+    | NoWit, Wit _ =>
+        do pw <- split_into_leading_constructor wr c_k;
+        Ok (Wit (snd pw), if pat_mem (fst pw) (snd st) then snd st else snd st ++ [fst pw])
+    | Wit rest, Wit _ =>
+        do pw <- split_into_leading_constructor wr c_k;
+        Ok (fst st, if pats_eqb (snd pw) rest && negb (pat_mem (fst pw) (snd st))
+                    then snd st ++ [fst pw] else snd st)
+    end.
+
   (* the loop of step 3 of is_useful_wildcard; state = (witness_report, pat_stack) *)
   Fixpoint complete_loop (t : ty) (ts_rest : list ty) (P : list (list pat)) (q_rest : list pat) (qlen : nat)
            (sigma : list pat) (st : wreport * list pat) : outcome (wreport * list pat) :=
     match sigma with
     | [] => Ok st
     | c_k :: sigma' =>
-        do s_p <- compute_specialized_matrix c_k P qlen;
-        do s_q <- compute_specialized_matrix c_k [PWild :: q_rest] qlen;
-        do wr <- join_rows (arg_tys c_k t ++ ts_rest) s_p s_q NoWit;
-        do st' <- match fst st, wr with
-                  | _, NoWit => Ok st
-                  | NoWit, Wit _ =>
-                      do pw <- split_into_leading_constructor wr c_k;
-                      Ok (Wit (snd pw), if pat_mem (fst pw) (snd st) then snd st else snd st ++ [fst pw])
-                  | Wit rest, Wit _ =>
-                      do pw <- split_into_leading_constructor wr c_k;
-                      Ok (fst st, if pats_eqb (snd pw) rest && negb (pat_mem (fst pw) (snd st))
-                                  then snd st ++ [fst pw] else snd st)
-                  end;
+        do wr <- ck_report t ts_rest P q_rest qlen c_k;
+        do st' <- ck_step c_k st wr;
         complete_loop t ts_rest P q_rest qlen sigma' st'
     end.
 
